@@ -62,6 +62,16 @@ def _mk(shape, k, entry="nearest_neighbor", budget=120):
                      models=("rf",))
 
 
+def _probe_scale(entry):
+    def run():
+        import pyrepseq
+        seqs, planted = hc.scale_case()
+        got = getattr(pyrepseq, entry)(list(seqs), max_edits=1)
+        ok, detail = hc.compare_triplets(got, hc.scale_self_expected(planted))
+        return ok, f"[scale probe] {entry} on {len(seqs)} sequences (neighbours planted at positions {sorted(planted.values())}): {detail}"
+    return run
+
+
 def conditions(tier):
     out = []
     pairs_q = [(a, b) for a in range(0, 4) for b in range(0, a + 1) if a >= 1 or True]
@@ -89,4 +99,7 @@ def conditions(tier):
         for shape in [(3, 3, 2), (3, 2, 2), (3, 3, 3), (2, 2, 2, 2)]:
             for k in (1, 2):
                 out.append(_mk(shape, k, budget=2400))
+    for entry in ("nearest_neighbor", "symdel"):
+        out.append(hc.probe_condition(f"C01/probe/{entry}/70000-sequences", f"{entry}, max_edits=1, on 70 006 sequences with six planted neighbour pairs "
+                                      "(positions 0, 255, 256, 65535, 65536, 69999): exact triplet set", _probe_scale(entry)))
     return out
